@@ -91,6 +91,8 @@ class Fn(P.Fn):
             return "ilist"
         if isinstance(node, ast.Name) and node.id == "bitarray":
             return "ba"
+        if isinstance(node, ast.Name) and node.id == "bytearray":
+            return "bytes"  # a bytearray is carried like bytes; it is only ever updated through `swap_pairs` below
         return super().ann(node)
 
     def _signature(self):
@@ -193,6 +195,10 @@ class Translator(P.Translator):
         return super().e_Subscript(n, env)
 
     def e_BinOp(self, n, env):
+        if isinstance(n.op, ast.Mult):
+            a, b = self.expr(n.left, env), self.expr(n.right, env)
+            if a.typ == "bytes" and b.typ == "int":
+                return Ex(f"(PyArr.bytesMul {a.val()} {b.val()})", "bytes")
         if isinstance(n.op, ast.Add):
             a, b = self.expr(n.left, env), self.expr(n.right, env)
             if a.typ == "ba" and b.typ == "ba":
@@ -220,6 +226,33 @@ class Translator(P.Translator):
         fn = n.func
         if isinstance(fn, ast.Name) and fn.id not in env:
             name = fn.id
+            if name == "__swap_pairs__":
+                x = self.expr(n.args[0], env)
+                return Ex(f"PyArr.swapPairs {x.val()}", "bytes", True)
+            if name == "bytearray" and len(n.args) == 1 and not n.keywords and "bytearray" not in self.f.fn.__globals__:
+                x = self.expr(n.args[0], env)
+                if x.typ == "bytes":
+                    return x  # a private copy: values have no identity here
+            if name == "bytes" and not n.args and not n.keywords:
+                return Ex("([] : List Nat)", "bytes")
+            g = self.f.fn.__globals__.get(name)
+            cands = [c for c in self.u.done if c.fn is g and c.clsname is None]
+            if len(cands) == 1:
+                callee = cands[0]
+                names = [p[0] for p in callee.params]
+                got = self.kwargs(n, names, env)
+                args = []
+                for pname, ptyp, pdef in callee.params:
+                    if pname in got:
+                        x = self.expr(got[pname], env)
+                        if x.typ != ptyp:
+                            self.f.bad(n, f"argument `{pname}` of {callee.qualname}: {x.typ} for {ptyp}")
+                        args.append(x.val())
+                    elif pdef is not None:
+                        args.append(pdef.text)
+                    else:
+                        self.f.bad(n, f"missing argument `{pname}` of {callee.qualname}")
+                return Ex(" ".join([callee.lean_name] + args), callee.ret, True)
             if name == "len" and len(n.args) == 1 and not n.keywords:
                 x = self.expr(n.args[0], env)
                 if x.typ == "ba":
@@ -398,9 +431,41 @@ class Translator(P.Translator):
             walk(s)
         return out
 
+    def rewrite_swaps(self):
+        """`x[0::2], x[1::2] = x[1::2], x[0::2]` on a buffer that this function made itself (`x = bytearray(...)` earlier, at the
+        top level) becomes the re-binding `x = __swap_pairs__(x)` (`PyArr.swapPairs`: `ValueError` for an odd length, as the
+        extended-slice assignment raises)"""
+        body = self.f.node.body
+        fresh = set()
+
+        def strided(node, name, start):
+            return (isinstance(node, ast.Subscript) and isinstance(node.value, ast.Name) and node.value.id == name
+                    and isinstance(node.slice, ast.Slice) and node.slice.upper is None
+                    and isinstance(node.slice.lower, ast.Constant) and node.slice.lower.value == start
+                    and isinstance(node.slice.step, ast.Constant) and node.slice.step.value == 2)
+
+        for k, st in enumerate(body):
+            if isinstance(st, ast.Assign) and len(st.targets) == 1 and isinstance(st.targets[0], ast.Name) \
+                    and isinstance(st.value, ast.Call) and isinstance(st.value.func, ast.Name) and st.value.func.id == "bytearray":
+                fresh.add(st.targets[0].id)
+            if isinstance(st, ast.Assign) and len(st.targets) == 1 and isinstance(st.targets[0], ast.Tuple) \
+                    and isinstance(st.value, ast.Tuple) and len(st.targets[0].elts) == 2 and len(st.value.elts) == 2:
+                t0, t1 = st.targets[0].elts
+                v0, v1 = st.value.elts
+                if isinstance(t0, ast.Subscript) and isinstance(t0.value, ast.Name):
+                    nm = t0.value.id
+                    if nm in fresh and strided(t0, nm, 0) and strided(t1, nm, 1) and strided(v0, nm, 1) and strided(v1, nm, 0):
+                        new = ast.Assign(targets=[ast.Name(id=nm, ctx=ast.Store())],
+                                         value=ast.Call(func=ast.Name(id="__swap_pairs__", ctx=ast.Load()),
+                                                        args=[ast.Name(id=nm, ctx=ast.Load())], keywords=[]))
+                        ast.copy_location(new, st)
+                        ast.fix_missing_locations(new)
+                        body[k] = new
+
     def function(self):
         self.retyped = set()
         _RENAME.clear()
+        self.rewrite_swaps()
         # a bitarray / array local that is updated in place follows the same no-aliasing rule as a local list
         text = super().function()
         return text
